@@ -33,6 +33,7 @@ import bob.invoker as BI
 import bob.pathspec as PS
 import bob.cmds.build.build as CB
 import bob.cmds.build.state as ST
+import bob.cmds.build.clean as CC
 from bob.errors import BobError
 
 NO_SOLVER_TIMEOUT = True
@@ -343,6 +344,7 @@ def install():
             super().__init__(*a, **k)
             _made.append(self)
     CB.DevelopDirOracle = Tracked
+    CC.DevelopDirOracle = Tracked
     orig_init = PS.PkgGraphNode.init.__func__
 
     def _init(cls, *a, **k):
@@ -730,6 +732,99 @@ def check_c06(fail: int, jobs: int, keep: bool) -> bool:
     return V.verdict(ok, fact)
 
 
+# ---------------------------------------------------------------- C16 ----
+def run_clean(w, st, args):
+    World.cur = w
+    os.chdir(w.root)
+    write_project(w.root, st)
+    buf = io.TextIOWrapper(io.BytesIO(), encoding='utf8', write_through=True)
+    outcome = 'ok'
+    try:
+        with contextlib.redirect_stdout(buf), contextlib.redirect_stderr(buf):
+            CC.doClean(list(args) + defines(st), '/bobroot')
+    except BobError:
+        outcome = 'error'
+    except SystemExit as e:
+        outcome = 'ok' if not e.code else 'error'
+    finally:
+        close_handles(False)
+        World.cur = None
+    return outcome
+
+
+def listing(root):
+    out = []
+    for d, ds, fs in os.walk(root):
+        ds[:] = [x for x in ds if not x.startswith('.bob')]
+        for f in fs:
+            if not f.startswith('.bob'):
+                out.append(os.path.relpath(os.path.join(d, f), root))
+    return sorted(out)
+
+
+def clean_history(e1, rel1, rel2, kind, resume):
+    """(--resume skips what the previous invocation completed unless its Variant-Id changed; source edits are by definition not
+    looked at, so they are not combined with --resume here)
+    build (develop or release), edit, build (develop or release), `bob clean` (kind 0: default, 1: --release, 2: -s, 3: --dry-run,
+    4: --release -s): nothing that is up to date for the current recipes may be lost -- rebuilding executes nothing"""
+    install()
+    cwd = os.getcwd()
+    try:
+        w = World(fresh('proj'))
+        st = initial()
+        o, outs, res = invoke(w, st, rel1)
+        if o != 'ok':
+            raise V.HarnessGap('first build failed')
+        st = apply_edit(st, e1)
+        if e1 == 11:
+            user_edit(w, st, rel1, st['srcedit'])
+        o, outs, res = invoke(w, st, rel2, ['--resume'] if resume else [])
+        if o != 'ok':
+            return False, 'second-build-failed'
+        want = clean_build(st, rel2, current_user_txt(w))
+        if outs != want:
+            return False, 'result-differs-from-clean-build'
+        before = listing(w.root)
+        args = [[], ['--release'], ['-s'], ['--dry-run'], ['--release', '-s']][kind]
+        if run_clean(w, st, args) != 'ok':
+            return False, 'clean-failed'
+        if kind == 3 and listing(w.root) != before:
+            return False, 'dry-run-deleted-something'
+        # everything the current recipes need is still there: rebuilding executes nothing, in the mode of the last build ...
+        o, outs2, res = invoke(w, st, rel2)
+        if o != 'ok' or outs2 != want:
+            return False, 'result-lost-by-clean'
+        if [k for k in w.execs if not (k.endswith('/src') and kind in (2, 4))]:
+            return False, 'clean-removed-an-up-to-date-result'
+        # ... and, if nothing was edited in between, in the other mode as well
+        if e1 == 0 and rel1 != rel2:
+            o, outs3, res = invoke(w, st, rel1)
+            if o != 'ok':
+                return False, 'other-mode-broken-by-clean'
+            if [k for k in w.execs if not (k.endswith('/src') and kind in (2, 4))]:
+                return False, 'clean-removed-an-up-to-date-result-of-the-other-mode'
+        return True, 'ok'
+    finally:
+        os.chdir(cwd)
+
+
+def check_c16_clean(e1: int, rel1: bool, rel2: bool, kind: int, resume: bool) -> bool:
+    """
+    pre: 0 <= e1 < EDITS
+    pre: 0 <= kind <= 4
+    pre: e1 % 4 == V.SHARD[0]
+    pre: not resume or e1 < 11
+    post: _
+    """
+    V.enter()
+    e = V.concretize(e1, EDITS)
+    k = V.concretize(kind, 5)
+    a, b, r = bool(rel1), bool(rel2), bool(resume)
+    with V.fast():
+        ok, fact = clean_history(e, a, b, k, r)
+    return V.verdict(ok, fact)
+
+
 # ---------------------------------------------------------------- C07 ----
 DMODES = ['no', 'yes', 'deps']
 
@@ -1021,6 +1116,8 @@ def PLAN(tier):
     for e in range(EDITS):
         P.append(dict(fn='check_c07', shard=[e, not q], timeout=900 if q else 3000))
     P.append(dict(fn='check_c07_foreign', shard=[0], timeout=600))
+    for k in range(4):
+        P.append(dict(fn='check_c16_clean', shard=[k], timeout=900))
     P.append(dict(fn='check_c08_tree', shard=[0], timeout=900))
     # artifacts are 1.7 - 3 kB (plain project) / up to 12 kB (hostile tree): shard = [kind, positions, artifact, tree, stride];
     # thorough: every truncation length and every byte position of the plain artifacts
